@@ -872,6 +872,9 @@ func (p *printer) expr(t *Term) string {
 		return smtSym(t.Name)
 	case "app":
 		sym := smtSym(t.Name)
+		if t.Name == "concat" {
+			sym = "strcat"
+		}
 		switch t.Name {
 		case "rootid":
 			p.usesRootID = true
@@ -961,16 +964,8 @@ func smtQuery(assumptions []*Term, goal *Term, wantModel bool, modelTerms map[st
 	if wantModel {
 		sb.WriteString("(set-option :produce-models true)\n")
 	}
+	sb.WriteString("(set-logic ALL)\n")
 	sb.WriteString(smtPrelude)
-	if p.usesStrlen || true {
-		sb.WriteString("(declare-fun strlen (Str) Int)\n(assert (forall ((s!q Str)) (! (>= (strlen s!q) 0) :pattern ((strlen s!q)))))\n")
-	}
-	if p.usesConcat {
-		sb.WriteString("(declare-fun concat (Str Str) Str)\n(assert (forall ((a!q Str) (b!q Str)) (! (= (strlen (concat a!q b!q)) (+ (strlen a!q) (strlen b!q))) :pattern ((concat a!q b!q)))))\n")
-	}
-	if p.usesRootID {
-		sb.WriteString("(declare-fun rootid (Ref) Int)\n(assert (= (rootid nilref) 0))\n(assert (forall ((f!q Int) (s!q Int)) (! (= (rootid (obj f!q s!q)) f!q) :pattern ((obj f!q s!q)))))\n(assert (forall ((p!q Ref) (f!q Int)) (! (= (rootid (sub p!q f!q)) (rootid p!q)) :pattern ((sub p!q f!q)))))\n(assert (forall ((p!q Ref) (i!q Int)) (! (= (rootid (elem p!q i!q)) (rootid p!q)) :pattern ((elem p!q i!q)))))\n")
-	}
 	// string literals: distinct, with their lengths
 	var lits []string
 	for _, sym := range p.order {
@@ -981,6 +976,15 @@ func smtQuery(assumptions []*Term, goal *Term, wantModel bool, modelTerms map[st
 	for _, sym := range p.order {
 		sb.WriteString(p.decls[sym])
 		sb.WriteByte('\n')
+	}
+	if p.usesStrlen || true {
+		sb.WriteString("(declare-fun strlen (Str) Int)\n(assert (forall ((s!q Str)) (! (>= (strlen s!q) 0) :pattern ((strlen s!q)))))\n")
+	}
+	if p.usesConcat {
+		sb.WriteString("(declare-fun strcat (Str Str) Str)\n(assert (forall ((a!q Str) (b!q Str)) (! (= (strlen (strcat a!q b!q)) (+ (strlen a!q) (strlen b!q))) :pattern ((strcat a!q b!q)))))\n(assert (forall ((a!q Str)) (! (= (strcat " + p.emptySym() + " a!q) a!q) :pattern ((strcat " + p.emptySym() + " a!q)))))\n(assert (forall ((a!q Str)) (! (= (strcat a!q " + p.emptySym() + ") a!q) :pattern ((strcat a!q " + p.emptySym() + ")))))\n(assert (forall ((a!q Str) (b!q Str) (c!q Str)) (! (= (strcat (strcat a!q b!q) c!q) (strcat a!q (strcat b!q c!q))) :pattern ((strcat (strcat a!q b!q) c!q)))))\n")
+	}
+	if p.usesRootID {
+		sb.WriteString("(declare-fun rootid (Ref) Int)\n(assert (= (rootid nilref) 0))\n(assert (forall ((f!q Int) (s!q Int)) (! (= (rootid (obj f!q s!q)) f!q) :pattern ((obj f!q s!q)))))\n(assert (forall ((p!q Ref) (f!q Int)) (! (= (rootid (sub p!q f!q)) (rootid p!q)) :pattern ((sub p!q f!q)))))\n(assert (forall ((p!q Ref) (i!q Int)) (! (= (rootid (elem p!q i!q)) (rootid p!q)) :pattern ((elem p!q i!q)))))\n")
 	}
 	if len(lits) > 1 {
 		sb.WriteString("(assert (distinct " + strings.Join(lits, " ") + "))\n")
